@@ -162,6 +162,26 @@ def symbolic_unit(arg):
     return out
 
 
+def wide_model_check(logic):
+    '''a directly built model with many worlds and out-of-order successor sets
+    (set iteration order differs from numeric order from world 8 on)'''
+    from pytableaux.lang import Atomic
+    if not logic.Meta.modal:
+        return []
+    m = logic.Model()
+    A = Atomic(0, 0)
+    for w in (0, 16, 8, 3, 1, 7, 17, 9):
+        m.set_value(A, 'T' if w % 2 else 'F', world=w)
+    for pair in ((0, 16), (0, 8), (0, 3), (0, 1), (7, 8), (7, 7), (16, 0), (9, 17), (9, 8), (8, 17), (8, 9), (8, 1)):
+        m.R.add(pair)
+    m.finish()
+    try:
+        check_export(m, logic, True, bool(logic.Meta.many_valued))
+    except Bad as e:
+        return [f'wide model: {e}']
+    return []
+
+
 def concrete_unit(arg):
     'models read from open branches of real tableaux'
     name, argstrs, seed = arg
@@ -171,6 +191,9 @@ def concrete_unit(arg):
     registry.import_all()
     logic = registry(name)
     out = dict(logic=name, models=0, bad=[])
+    for msg in wide_model_check(logic):
+        out['bad'].append(dict(argstr='(wide model)', error=f'Bad: {msg}'))
+    out['models'] += 1
     for a in argstrs:
         reset_order(seed)
         try:
@@ -248,7 +271,8 @@ def replay(data):
     registry.import_all()
     logic = registry(data['logic'])
     if data['kind'] == 'concrete':
-        r = concrete_unit((data['logic'], [data['argstr']], data.get('seed', 0)))
+        r = concrete_unit((data['logic'], [] if data['argstr'] == '(wide model)' else [data['argstr']],
+                           data.get('seed', 0)))
         return bool(r['bad']), f'{data["logic"]} {data["argstr"]}: {r["bad"][:1]}'
     # symbolic: rebuild the model with the witness values
     S = LogicSem(data['logic'])
